@@ -15,6 +15,17 @@
  *
  * Reference: (live, cap, len, b[], def[]); def[i]==0 means "the header does not say what this byte holds"
  * (fresh allocation, bytes beyond len after a grow).
+ *
+ * Bounds: each configuration is run twice — capacity <= 3 (quick) / <= 4 (thorough) to the FIXPOINT, and
+ * capacity <= 6 to depth 5 (quick) / 6 (thorough).  A growing call may leave the bound once (up to 2*bound+1, so
+ * doubling from every capacity of the model runs); that step is checked in full and closed by a clean_up.
+ * Length arguments: {0, 1, 2, exact-fit, exact-fit+1, SIZE_MAX/2, SIZE_MAX/2+1, SIZE_MAX-1, SIZE_MAX}.
+ *
+ * Checked after every call: return value, registered error code, len <= capacity, aws_byte_buf_is_valid(),
+ * buffer==NULL <=> capacity==0, allocator field, every defined byte of [0,capacity) against the reference, guard
+ * bytes / ASan red zones, allocator balance; after a reported failure the struct bytes and the storage are
+ * compared with the snapshot taken before the call (cat is the documented exception); 'secure' calls: the
+ * allocator's release hook requires every byte of a block handed back to be zero.
  */
 #include "c01_common.h"
 
@@ -222,7 +233,11 @@ static void ref_grow(size_t newcap) {
 /* Where the header does not fix the resulting capacity ("grown appropriately", "a copy of the elements"), any
  * capacity that holds the contents is accepted and followed; it is counted so that the reading is visible. */
 static void ref_adopt_capacity(int rc) {
-    if (rc == AWS_OP_SUCCESS && X.capacity != R.cap && X.capacity >= R.len && X.capacity < REFCAP && X.len == R.len) {
+    if (rc == AWS_OP_SUCCESS && X.capacity > MAXCAP + 1 && X.capacity != R.cap) {
+        esx_fail("capacity-outside-model-bound", "capacity %zu is legal but beyond what this harness can follow (reference rule gives %zu)", X.capacity, R.cap);
+        return;
+    }
+    if (rc == AWS_OP_SUCCESS && X.capacity != R.cap && X.capacity >= R.len && X.len == R.len) {
         VC("capacity_differs_from_reference_rule");
         for (size_t i = R.len; i < X.capacity; ++i) R.def[i] = 0;
         R.cap = X.capacity;
@@ -327,6 +342,10 @@ static size_t fill_len(int v) { /* read_and_fill_buffer source lengths: 0, cap-1
     return v == 0 ? 0 : v == 1 ? R.cap - 1 : v == 2 ? R.cap : v == 3 ? R.cap + 1 : 0;
 }
 
+/* Growing calls may take the capacity beyond the model bound, up to 2*bound+1 (so that doubling from every capacity
+ * of the model is exercised); such a transition is checked like any other and is then closed by an epilogue
+ * clean_up inside the same step, so the state space stays within the bound. */
+static size_t growcap(void) { return 2 * g_cfg.maxcap + 1; }
 static bool m_enabled(int op) {
     const struct opd *d = &ops[op];
     size_t fit = R.cap - R.len;
@@ -352,25 +371,25 @@ static bool m_enabled(int op) {
             if (!carg_enabled(d->a)) return false;
             size_t n = d->a < LA_N ? la_value(d->a, fit) : d->a == ARG_NULL0 ? 0 : d->a == ARG_SELF ? R.len : 1;
             if (d->a < LA_N && la_huge(d->a)) return dyn_overflows(n); /* otherwise it would really allocate SIZE_MAX bytes: OOM, out of scope */
-            return dyn_newcap(n) <= g_cfg.maxcap;
+            return dyn_newcap(n) <= growcap();
         }
         case F_APPEND_BYTE_DYN:
-        case F_NULL_TERM: return dyn_newcap(1) <= g_cfg.maxcap;
+        case F_NULL_TERM: return dyn_newcap(1) <= growcap();
         case F_CAT: {
             size_t a, b;
             bool ok;
             cat_lens(d->a, &a, &b, &ok);
             return ok && a <= 7 && b <= 7;
         }
-        case F_RESERVE: return (d->a != 3 || R.cap > 2) && (d->a != 4 || R.cap + 1 > 2) && reserve_arg(d->a) <= g_cfg.maxcap;
-        case F_RESERVE_SMART: return (d->a != 3 || R.cap > 2) && (d->a != 4 || R.cap + 1 > 2) && smart_newcap(reserve_arg(d->a)) <= g_cfg.maxcap;
+        case F_RESERVE: return (d->a != 3 || R.cap > 2) && (d->a != 4 || R.cap + 1 > 2) && reserve_arg(d->a) <= growcap();
+        case F_RESERVE_SMART: return (d->a != 3 || R.cap > 2) && (d->a != 4 || R.cap + 1 > 2) && smart_newcap(reserve_arg(d->a)) <= growcap();
         case F_RESERVE_REL:
         case F_RESERVE_SMART_REL: {
             if (!la_distinct(d->a, fit)) return false;
             size_t add = la_value(d->a, fit);
             if (add > SIZE_MAX - R.len) return true; /* must be refused: checked-add overflow */
             if (la_huge(d->a)) return false;         /* would really allocate: OOM, out of scope */
-            return (d->fn == F_RESERVE_REL ? (R.len + add > R.cap ? R.len + add : R.cap) : smart_newcap(R.len + add)) <= g_cfg.maxcap;
+            return (d->fn == F_RESERVE_REL ? (R.len + add > R.cap ? R.len + add : R.cap) : smart_newcap(R.len + add)) <= growcap();
         }
         case F_WRITE_WHOLE_BUF: return d->a < 2 || (d->a == 2 ? fit > 1 : fit + 1 > 1);
         case F_WRITE_WHOLE_STR: return d->a < 2 || d->a == 4 || (d->a == 2 ? fit > 1 : fit + 1 > 1);
@@ -485,7 +504,7 @@ static void m_apply(int op) {
                 store = store_blk + GUARD;
                 memset(store, 0xEE, c);
             }
-            uint8_t before[MAXCAP + 1];
+            uint8_t before[MAXCAP + 2];
             memcpy(before, store, c);
             X = d->fn == F_ATTACH_EMPTY ? aws_byte_buf_from_empty_array(store, c) : aws_byte_buf_from_array(store, c);
             ESX_CHECK(memcmp(before, store, c) == 0, "from-array-wrote", "%s modified the caller's storage", nm);
@@ -782,7 +801,7 @@ static void m_apply(int op) {
             break;
         }
         case F_EQ: {
-            uint8_t t[MAXCAP + 2];
+            uint8_t t[MAXCAP + 4];
             size_t n = R.len;
             if (n) memcpy(t, X.buffer, n);
             bool r, want = true;
@@ -813,6 +832,16 @@ static void m_apply(int op) {
     hook_armed = 0;
     tmp_free_all();
     check_state(nm);
+    if (!esx_failed && R.live && R.cap > g_cfg.maxcap) {
+        VC("growth_beyond_model_bound_then_clean_up");
+        snap();
+        LIB_BEGIN(d->b);
+        if (d->b) aws_byte_buf_clean_up_secure(&X);
+        else aws_byte_buf_clean_up(&X);
+        LIB_END();
+        memset(&R, 0, sizeof(R));
+        check_state("clean_up after a growth beyond the model bound");
+    }
 }
 
 /* canonical state = everything the library's behaviour and the oracle's future verdicts depend on: the reference
